@@ -77,10 +77,12 @@ def main():
                 if f is not None and hasattr(f, '__code__'):
                     targets.append(f.__code__)
         import pydbml.parser.parser as P
-        for name in dir(P.PyDBMLParser):
-            f = getattr(P.PyDBMLParser, name)
-            if callable(f) and hasattr(f, '__code__') and not name.startswith('__'):
-                targets.append(f.__code__)
+        for cls in vars(P).values():          # every class defined in the parser module (names are not assumed)
+            if isinstance(cls, type) and cls.__module__ == P.__name__:
+                for name, f in vars(cls).items():
+                    f = getattr(f, '__func__', f)
+                    if hasattr(f, '__code__') and not name.startswith('__'):
+                        targets.append(f.__code__)
         for c in targets:
             mon.set_local_events(DLY, c, mon.events.LINE)
     if spec['perturb'] in ('switch', 'victim'):
